@@ -51,6 +51,7 @@ pub fn replay_special(_ctx: &Ctx, case: &serde_json::Value) -> i32 {
         Some("init") => return c11::replay(case),
         Some("c13") => return c13::replay(case),
         Some("c14") => return c14::replay(case),
+        Some("c14bus") => return c14::replay_bus(case),
         Some("c15") => return c15::replay(case),
         Some("c18") => return c18::replay(case),
         Some("c19") => return c19::replay(case),
